@@ -397,6 +397,22 @@ def accept : P String := do
   let acc ← P.bool
   P.eof
   let m := mk3 S A O T Ob
+  if cls == "denseM" || cls == "sparseM" then
+    -- Eigen-matrix setters: `isProbability(const Matrix3D &)` / `(const SparseMatrix3D &)`; nothing is dropped
+    let spM := cls == "sparseM"
+    let comp := (if spM then "SparseModel" else "Model") ++ "/matrix_setters"
+    let absDev (n : Nat) (row : Nat → Rat) : Rat := absQ (sumTo n (fun i => absQ (row i)) - 1)
+    let ill := !(allRows m (fun n row => !nearTol (rowDev n row) && !(spM && nearTol (absDev n row))))
+    if ill then return "skip ill_conditioned"
+    let model := if spM then allRows m (fun n row => isProbRowSp tolSmall n row) else allRows m (fun n row => isProbRowE tolSmall n row)
+    let v : Verdict := { tag := "accept_" ++ cls ++ (if acc then "_yes" else "_no") }
+    let v := dIf v (model != acc) (fun _ => s!"{comp} model={model} impl={acc}")
+    -- the sparse form has no sign test (Props.C05Load.isProbRowSp_accepts_negative): entries in [-tol, 0) pass, which is a matter of
+    -- model validity (C06), not of the belief update; what must hold for both: row sums within the tolerance, entries >= -tol
+    let v := fIf v (acc && !spM && !acceptDense tolSmall m) (fun _ => s!"{comp} accepted_invalid_model (negative entry or row sum beyond the tolerance)")
+    let v := fIf v (acc && spM && !(allRows m (fun n row => decide (rowDev n row ≤ tolSmall) && allLt n (fun i => decide (-tolSmall ≤ row i)))))
+        (fun _ => s!"{comp} accepted_invalid_model (row sum beyond the tolerance or entry below -tolerance)")
+    return v.render
   let sp := cls == "sparse"
   let comp := (if sp then "SparseModel" else "Model") ++ "/ctor"
   -- decided by rounding? (a row sum, or for the sparse class a stored row sum, within 1e-9 of the tolerance)
